@@ -1,5 +1,7 @@
-(* C05/Refuted.v — witnesses: the full statements of C05 and of the GVariant halves of C02 / C04 do not hold for the
-   model of the code as it is.  One concrete value / byte string per known class, evaluated by vm_compute. *)
+(* C05/Refuted.v — witnesses: the full statements of C05 and of the GVariant half of C02 do not hold for the
+   model of the code as it is.  One concrete value per known class, evaluated by vm_compute.  The witnesses of the two
+   classes repaired upstream (dict_key_width: c613b0b9, struct_offset_underflow: b5246470) are kept as examples of the
+   repaired behaviour. *)
 From ZV Require Import Base.Bytes Base.Res Base.Sig Base.SigParse DBus.Val DBus.Spec DBus.Ser DBus.De
   C05.Val C05.Spec C05.Model C05.DeModel C05.Classes.
 Local Open Scope N_scope.
@@ -28,8 +30,12 @@ Lemma empty_witness : c05_witness (node_empty_offsets LE) w_empty.
 Proof. repeat split; try (vm_compute; reflexivity). vm_compute. discriminate. Qed.
 Lemma empty_tuple_witness : c05_witness (node_empty_offsets LE) w_empty_tuple.
 Proof. repeat split; try (vm_compute; reflexivity). vm_compute. discriminate. Qed.
-Lemma dictkey_witness : c05_witness (node_dict_key LE) w_dictkey.
-Proof. repeat split; try (vm_compute; reflexivity). vm_compute. discriminate. Qed.
+(* formerly the witness of class dict_key_width: key "k" + value of 252 letters = 255 bytes of entry data, so the key's
+   framing offset needs 2 bytes (255 + 1 > 255); before c613b0b9 the code wrote 1.  Now the format's bytes are written. *)
+Lemma dictkey_repaired :
+  gwf w_dictkey = true /\ gwithin_limits w_dictkey = true /\ gplain w_dictkey = true /\ gsmall LE w_dictkey = true /\
+  known_c05 LE w_dictkey = false /\ c05_holds LE 0 w_dictkey.
+Proof. repeat split; vm_compute; reflexivity. Qed.
 
 (* what the code writes and what the format prescribes, for the record *)
 Example bool_bytes : gser_top LE 0 SBool (XBool true) = Ok ([x01; x00; x00; x00], []) /\ gv_marshal LE 0 w_bool = [x01].
@@ -64,20 +70,25 @@ Lemma c02_empty_refuted : gwf w_empty = true /\ gwithin_limits w_empty = true /\
 Proof. repeat split; try (vm_compute; reflexivity). intros [n H]. vm_compute in H. discriminate. Qed.
 Lemma c02_empty_tuple_refuted : gwf w_empty_tuple = true /\ gwithin_limits w_empty_tuple = true /\ ~ c02_holds LE 0 w_empty_tuple.
 Proof. repeat split; try (vm_compute; reflexivity). intros [n H]. vm_compute in H. discriminate. Qed.
-Lemma c02_dictkey_refuted : gwf w_dictkey = true /\ gwithin_limits w_dictkey = true /\ ~ c02_holds LE 0 w_dictkey.
-Proof. repeat split; try (vm_compute; reflexivity). intros [n H]. vm_compute in H. discriminate. Qed.
+Lemma c02_dictkey_repaired : c02_holds LE 0 w_dictkey.
+Proof. exists 259. vm_compute. reflexivity. Qed.
 (* the round trip of the other two classes is fine: decoder and encoder share the deviation *)
 Example c02_bool_ok : c02_holds LE 0 w_bool. Proof. exists 4. reflexivity. Qed.
 Example c02_tail_ok : c02_holds LE 0 w_tail_array. Proof. exists 13. reflexivity. Qed.
 
 (* ---------- C04, GVariant half: hostile bytes ---------- *)
-(* a tuple of 130 strings over 257 zero bytes: the 129th framing offset is read from a 1-byte window with 2-byte offsets *)
+(* a tuple of 130 strings over 257 zero bytes: the 129th framing offset would be read from a 1-byte window with 2-byte
+   offsets.  Before b5246470 that was `attempt to subtract with overflow` in read_last_offset_from_buffer; now the short
+   window is refused with OutOfBounds. *)
 Definition w_panic_sig : sig := SStruct (repeat SStr 130).
 Definition w_panic_bytes : bytes := repeat x00 257.
-Lemma c04_struct_offset_panics :
-  gde_struct_top LE 0 w_panic_sig w_panic_bytes [] = Panic PArith.
-Proof. vm_compute. reflexivity. Qed.
-(* the same through a variant: signature and value both come from the input bytes *)
+Lemma c04_struct_offset_repaired :
+  gde_struct_top LE 0 w_panic_sig w_panic_bytes [] = Err EBounds
+  /\ gde_before_fix gde_fuel (ginit_dst LE 0 w_panic_sig w_panic_bytes []) = Panic PArith.
+Proof. split; vm_compute; reflexivity. Qed.
+(* the same through a variant: signature and value both come from the input bytes; same code path, same repair *)
 Definition w_panic_variant : bytes := repeat x00 257 ++ [x00] ++ show w_panic_sig.
-Lemma c04_variant_offset_panics : gde_value_top LE 0 w_panic_variant [] = Panic PArith.
-Proof. vm_compute. reflexivity. Qed.
+Lemma c04_variant_offset_repaired :
+  gde_value_top LE 0 w_panic_variant [] = Err EBounds
+  /\ gde_before_fix gde_fuel (ginit_dst LE 0 SVariant w_panic_variant []) = Panic PArith.
+Proof. split; vm_compute; reflexivity. Qed.
